@@ -26,16 +26,19 @@ Record lm_variant := {
   lm_keys_sorted_as_text  : bool;  (* getLuaAsData collects the items of an array-like table in a
                                       std::map<std::string,...>: "10" sorts before "2" *)
   lm_int_via_double       : bool;  (* getLuaAsData prints every number through cast<double> *)
-  lm_empty_key_undefined  : bool   (* getDataAsLua evaluates strTo<long>("") for the empty compound key:
+  lm_empty_key_undefined  : bool;  (* getDataAsLua evaluates strTo<long>("") for the empty compound key:
                                       isInteger("") holds vacuously, `long v; istringstream("") >> v`
                                       fails in the sentry and leaves v uninitialised *)
+  lm_sign_anywhere        : bool   (* isInteger / isNumeric (Convenience.cpp) accept '-' at any position
+                                      and any number of '.': "1-2", "--1", "1.2.3" pass, and
+                                      strTo<long>("1-2") = 1 *)
 }.
 Definition lm_pinned : lm_variant :=
   {| lm_empty_atom_is_nil := true; lm_keys_sorted_as_text := true; lm_int_via_double := true;
-     lm_empty_key_undefined := true |}.
+     lm_empty_key_undefined := true; lm_sign_anywhere := true |}.
 Definition lm_fixed : lm_variant :=
   {| lm_empty_atom_is_nil := false; lm_keys_sorted_as_text := false; lm_int_via_double := false;
-     lm_empty_key_undefined := false |}.
+     lm_empty_key_undefined := false; lm_sign_anywhere := false |}.
 
 (* outcome of the functions that can throw or run into undefined behaviour *)
 Inductive mres (A : Type) :=
@@ -52,10 +55,35 @@ Definition c_zero : N := 48.
 
 Definition is_digit (c : N) : bool := (48 <=? c) && (c <=? 57).
 
-(* isInteger(s, 10): no character outside "-0123456789" (the empty string passes) *)
-Definition is_integer (s : bytes) : bool := forallb (fun c => (c =? c_minus) || is_digit c) s.
-(* isNumeric(s, 10): no character outside ".-0123456789" *)
-Definition is_numeric (s : bytes) : bool := forallb (fun c => (c =? c_dot) || (c =? c_minus) || is_digit c) s.
+(* isInteger(s, 10) as pinned: no character outside "-0123456789" (the empty string passes) *)
+Definition is_integer_anywhere (s : bytes) : bool := forallb (fun c => (c =? c_minus) || is_digit c) s.
+(* isNumeric(s, 10) as pinned: no character outside ".-0123456789" *)
+Definition is_numeric_anywhere (s : bytes) : bool := forallb (fun c => (c =? c_dot) || (c =? c_minus) || is_digit c) s.
+
+(* repaired: additionally `input.find('-', 1) == npos` -- a '-' only as the first character -- and for
+   isNumeric `input.find('.') == input.rfind('.')` -- at most one '.'.  The empty string, "-" and "."
+   still pass. *)
+Definition digits_only (s : bytes) : bool := forallb is_digit s.
+Definition is_integer_strict (s : bytes) : bool :=
+  match s with
+  | [] => true
+  | c :: r => if c =? c_minus then digits_only r else digits_only s
+  end.
+Fixpoint num_body (dot_seen : bool) (s : bytes) : bool :=
+  match s with
+  | [] => true
+  | c :: r => if c =? c_dot then negb dot_seen && num_body true r else is_digit c && num_body dot_seen r
+  end.
+Definition is_numeric_strict (s : bytes) : bool :=
+  match s with
+  | [] => true
+  | c :: r => if c =? c_minus then num_body false r else num_body false s
+  end.
+
+Definition is_integer (sign_anywhere : bool) (s : bytes) : bool :=
+  if sign_anywhere then is_integer_anywhere s else is_integer_strict s.
+Definition is_numeric (sign_anywhere : bool) (s : bytes) : bool :=
+  if sign_anywhere then is_numeric_anywhere s else is_numeric_strict s.
 (* atom.find(".") != npos *)
 Definition contains_dot (s : bytes) : bool := existsb (fun c => c =? c_dot) s.
 
@@ -430,17 +458,17 @@ Section LuaMarshal.
 
   (* ---------------------------------------------------------------- getDataAsLua *)
   (* `isInteger(key) && strTo<long>(key) > 0 ? luaData[strTo<long>(key)] : luaData[key]` *)
-  Definition key_of_compound (k : bytes) : lkey :=
-    if is_integer k && (0 <? str_to_long k)%Z then KInt (str_to_long k) else KStr k.
+  Definition key_of_compound (vr : lm_variant) (k : bytes) : lkey :=
+    if is_integer (lm_sign_anywhere vr) k && (0 <? str_to_long k)%Z then KInt (str_to_long k) else KStr k.
   (* the key for which that test reads an uninitialised long *)
   Definition key_undefined (vr : lm_variant) (k : bytes) : bool :=
     lm_empty_key_undefined vr && match k with [] => true | _ => false end.
 
-  Definition atom_as_lua (g : store) (a : bytes) (t : dtype) : mres lua :=
+  Definition atom_as_lua (vr : lm_variant) (g : store) (a : bytes) (t : dtype) : mres lua :=
     match t with
     | VERBATIM => MOk (LStr a)
     | INTERPRETED =>
-        if is_numeric a then
+        if is_numeric (lm_sign_anywhere vr) a then
           if contains_dot a then MOk (LNum (NFlt (str_to_double a)))
           else MOk (LNum (NInt (str_to_long a)))
         else
@@ -470,7 +498,7 @@ Section LuaMarshal.
                    if key_undefined vr k then MUndef
                    else
                      match get_data_as_lua vr g x with
-                     | MOk lx => go r (tbl_set (key_of_compound k) lx acc)
+                     | MOk lx => go r (tbl_set (key_of_compound vr k) lx acc)
                      | MErr => MErr
                      | MUndef => MUndef
                      end
@@ -489,7 +517,7 @@ Section LuaMarshal.
                        end
                    end) ar []
             | [] =>
-                if atom_branch_taken vr a t then atom_as_lua g a t else MOk LNil
+                if atom_branch_taken vr a t then atom_as_lua vr g a t else MOk LNil
             end
         end
     end.
@@ -610,9 +638,14 @@ Section LuaMarshal.
   (* which doubles print and re-read stably (trusted classification of the oracle) *)
   Variable F_stable : F -> bool.
 
-  (* a number-like key: non-empty and made of the characters of decimal numerals only *)
+  (* a number-like key: a decimal numeral -- an optional leading '-', digits with at most one '.',
+     at least one digit.  ("1-2", "--1", "1.2.3", "-", "." and the empty key are not numbers.) *)
   Definition key_numeric (k : bytes) : bool :=
-    match k with [] => false | _ => is_numeric k end.
+    is_numeric_strict k && existsb is_digit k.
+  (* the keys the pinned helpers take for numbers although they are not: made of the characters
+     ".-0123456789" only *)
+  Definition key_numeric_anywhere (k : bytes) : bool :=
+    match k with [] => false | _ => is_numeric_anywhere k end.
 
   Fixpoint keys_distinct (ks : list bytes) : bool :=
     match ks with
@@ -660,7 +693,10 @@ Section LuaMarshal.
         (fix all (kvs : list (bytes * value)) : bool :=
            match kvs with
            | [] => true
-           | (k, x) :: r => negb (key_undefined vr k) && variant_ok vr x && all r
+           | (k, x) :: r =>
+               negb (key_undefined vr k) &&
+               (negb (lm_sign_anywhere vr) || negb (key_numeric_anywhere k)) &&
+               variant_ok vr x && all r
            end) kvs
     end.
 
